@@ -3,13 +3,13 @@
 package main
 
 import (
-	"runtime"
 	"encoding/hex"
 	"encoding/json"
 	"fmt"
 	"net"
 	"reflect"
 	"regexp"
+	"runtime"
 	"strconv"
 	"strings"
 	"sync"
@@ -241,7 +241,7 @@ func c14Commands() []string {
 }
 
 func checkC14(c *ev.Ctx) {
-	c.Rule("SSH_ORIGINAL_COMMAND from an 80-text catalogue (JSON objects with good/missing/mistyped fields and 8 version spellings, other JSON values, objects surrounded by JSON whitespace with legacy-looking tokens inside a string value, legacy k=v texts, empty, raw bytes) x LOGNAME{5} x SSH_CONNECTION{11} x argument vectors: part A (serial, CSPRNG identity checked) all commands x lognames x connections x 8 vectors; every ordered pair of catalogue commands back to back on one pinned goroutine (twice); 300 distinct declared versions / users / hosts / addresses in one process, each revisited twice; part B all vectors of 0..4 arguments over a 9-token alphabet (incl. space-containing arguments that end in a policy token) (thorough: 0..8 over 4 tokens as well) x reduced command/logname/connection sets; each compared with a reference model written from the statement. non-trivial = accepted input; distinct by input")
+	c.Rule("SSH_ORIGINAL_COMMAND from an 80-text catalogue (JSON objects with good/missing/mistyped fields and 8 version spellings, other JSON values, objects surrounded by JSON whitespace with legacy-looking tokens inside a string value, legacy k=v texts, empty, raw bytes) x LOGNAME{5} x SSH_CONNECTION{11} x argument vectors: part A (serial, CSPRNG identity checked) all commands x lognames x connections x 12 vectors (incl. handler keywords written with quote characters); every ordered pair of catalogue commands back to back on one pinned goroutine (twice); 300 distinct declared versions / users / hosts / addresses in one process, each revisited twice; part B all vectors of 0..4 arguments over a 9-token alphabet (incl. space-containing arguments that end in a policy token) (thorough: 0..8 over 4 tokens as well) x reduced command/logname/connection sets; each compared with a reference model written from the statement. non-trivial = accepted input; distinct by input")
 	c.Assume("transid bytes come through the csprng seam (crypto/rand import of csr/transid redirected to a recording deterministic stream)")
 	if c.ReplayCase != nil {
 		var k c14Case
@@ -253,7 +253,10 @@ func checkC14(c *ev.Ctx) {
 	lognames := []string{"alice", "", "a b", "ünï", "../x"}
 	conns := []string{"1.2.3.4 36673 192.168.223.229 22", "", "2001:db8::1 1 ::1 22", "1.2.3.4", " 1.2.3.4 1 2 3", "1.2.3.4\t1\t2\t3", "999.1.1.1 1 2 3", "fe80::1%eth0 1 2 3", "1.2.3.4 ", "host.example 1 2 3", "01.2.3.4 1 2 3"}
 	argvs := [][]string{{"/usr/bin/gensign", "NONS", "Regular"}, {"/usr/bin/gensign", "NSOK", "Regular"}, {"/usr/bin/gensign NONS Regular"}, {"/usr/bin/gensign", "nons", "Regular"},
-		{"/usr/bin/gensign", "Regular"}, {}, {"a", "b", "c", "d", "NSOK", "e"}, {"a", "b", "c", "d", "e", "NSOK", "f"}}
+		{"/usr/bin/gensign", "Regular"}, {}, {"a", "b", "c", "d", "NSOK", "e"}, {"a", "b", "c", "d", "e", "NSOK", "f"},
+		// a handler keyword written with quote characters, as argv and in the login-shell form (the keyword is no subject
+		// of the property; what else the request yields must not depend on how it is spelled)
+		{"/usr/bin/gensign", "NSOK", `"Regular"`}, {"gensign", "-c", `/usr/bin/gensign NSOK "Regular"`}, {"/usr/bin/gensign", "NONS", `'Regular'`}, {"/usr/bin/gensign", "NSOK", "`Regular`"}}
 	for _, cmd := range cmds {
 		for _, ln := range lognames {
 			for _, cn := range conns {
